@@ -170,6 +170,11 @@ def cases(rng, tier):
     for crv in ("Ed25519", "Ed448"):
         for ser in ("compact", "flat", "general", "jwt"):
             out.append({"op": "eddsa_curve", "crv": crv, "ser": ser, "alg": "EdDSA", "kind": "okp-curve"})
+    # keys without a kid on both sides: a JWT signed with a kid-less Key object / JWK / PEM verifies under the matching single-key set (dict, JSON text members, KeySet) without kid
+    for alg in ("HS256", "RS256", "ES256", "EdDSA"):
+        for sform in ("key", "jwk", "bytes"):
+            for vform in ("jwks-dict", "keyset", "key", "jwk"):
+                out.append({"op": "kidless", "alg": alg, "sform": sform, "vform": vform, "kind": "kidless"})
     # the library's default instance `authlib.jose.jwt` (what the rest of the library and most applications use): every registered algorithm but none
     for alg in [a for a in R.ALL_ALGS if a != "none"]:
         out.append({"op": "default_jwt", "alg": alg, "kind": "default-instance"})
@@ -270,6 +275,29 @@ def impl(c):
         h = r["header"] if c["ser"] == "flat" else r["header"][0]
         return {"signed_protected": signed, "wire_unprotected": ent.get("header"), "reported_protected": dict(h.protected), "reported_unprotected": dict(h.header),
                 "want": [prot, unprot], "ref_ok": bool(R.verify(c["alg"], raw_key(c["alg"]), ent["protected"].encode() + b"." + o["payload"].encode(), lenient(ent["signature"].encode())))}
+    if c["op"] == "kidless":
+        jw = JsonWebToken([c["alg"]])
+        alg = c["alg"]
+        def kk(private):
+            if alg.startswith("HS"):
+                return OctKey.import_key(HS_SECRET)
+            kx = R.keys()[R.key_for_alg(alg, 1)]
+            return JsonWebKey.import_key(R.pem_private(kx) if private else R.pem_public(kx))
+        sk = kk(True)
+        signer = sk if c["sform"] == "key" else dict(sk.as_dict(is_private=True)) if c["sform"] == "jwk" else (HS_SECRET if alg.startswith("HS") else R.pem_private(R.keys()[R.key_for_alg(alg, 1)]))
+        if isinstance(signer, dict):
+            signer.pop("kid", None)
+        res = {}
+        try:
+            t = jw.encode({"alg": alg}, {"sub": "s"}, signer)
+            res["header_kid"] = json.loads(lenient(t.split(b".")[0])).get("kid")
+            vk = kk(False)
+            jwk_nokid = {k_: v_ for k_, v_ in vk.as_dict(is_private=alg.startswith("HS")).items() if k_ != "kid"}
+            verifier = {"jwks-dict": {"keys": [jwk_nokid]}, "keyset": KeySet([kk(False)]), "key": kk(False), "jwk": jwk_nokid}[c["vform"]]
+            res["accepted"] = dict(jw.decode(t, verifier)) == {"sub": "s"}
+        except Exception as e:
+            res["accepted"] = False; res["error"] = type(e).__name__ + ": " + str(e)[:60]
+        return res
     if c["op"] == "default_jwt":
         from authlib.jose import jwt as default_jwt
         alg, res = c["alg"], {}
@@ -471,7 +499,7 @@ def verify_entries(c, pairs):
 
 
 def model_line(c):
-    if c["op"] in ("default_jwt", "hskey", "jwt_reuse", "eddsa_curve", "keyset_rotation", "resolver", "json_headers", "json_mixed"):
+    if c["op"] in ("kidless", "default_jwt", "hskey", "jwt_reuse", "eddsa_curve", "keyset_rotation", "resolver", "json_headers", "json_mixed"):
         return None
     if c["op"] == "hmac":
         return {"op": "hmac", "bits": c["bits"], "k": c["k"], "m": c["m"], "key": {"oct": ""}, "headers": {}}
@@ -528,6 +556,11 @@ def oracle(c, out):
                       {"alg": c["alg"], "op": "json_headers", "kind": "wrong-content"}))
         if not out["ref_ok"]:
             v.append((f"{c['ser']} JSON JWS is not accepted by the independent verifier", {"alg": c["alg"], "op": "json_headers", "kind": "own-token-refused"}))
+        return v
+    if c["op"] == "kidless":
+        if not out.get("accepted"):
+            v.append((f"{c['alg']}: JWT signed with a kid-less key (given as {c['sform']}; header kid {out.get('header_kid')!r}) is not accepted under the matching kid-less key given as {c['vform']}: {out.get('error')}",
+                      {"alg": c["alg"], "op": "kidless", "kind": "own-token-refused"}))
         return v
     if c["op"] == "default_jwt":
         want = {"own": True, "ref_accepts": True, "interop_in": True, "other_key": "refused"}
@@ -634,6 +667,8 @@ def classify(c, out):
         return f"keyset_rotation/{c['how']}"
     if c["op"] == "resolver":
         return "resolver/" + ("accepted" if out.get("accepted") else "refused")
+    if c["op"] == "kidless":
+        return f"kidless/{c['sform']}/{c['vform']}"
     if c["op"] == "default_jwt":
         return "default_jwt/" + c["alg"][:2]
     if c["op"] in ("json_headers", "json_mixed"):
@@ -652,6 +687,8 @@ def nontrivial(c, out):
         return [c["alg"], c["how"]]
     if c["op"] == "resolver":
         return [c[k] for k in ("alg", "returns", "signed_by", "jwk_header", "api")]
+    if c["op"] == "kidless":
+        return [c["alg"], c["sform"], c["vform"]]
     if c["op"] == "default_jwt":
         return [c["alg"]]
     if c["op"] in ("json_headers", "json_mixed"):
